@@ -60,7 +60,15 @@ func init() {
 	p.Run = func(c *Ctx) {
 		cfg := gen.Cfg{ExprDepth: 1, BodyLen: 4, Nest: 4, HostileText: true, Comments: true, Verbatim: true, If: true, For: true,
 			SetCap: true, FilterSec: true, Calls: true, Macros: true, Blocks: true}
-		sub.Rapid(c, c.Share(c.Pick(20000, 1000000)), progGen(cfg))
+		sub.Rapid(c, c.Share(c.Pick(20000, 1000000)), func(t *rapidT) *progCase {
+			pc := progGen(cfg)(t)
+			// '-' markers on delimiters that have no adjacent whitespace (stick
+			// does not trim; where nothing could be trimmed the output is the same)
+			for _, tp := range pc.P.Tpls {
+				markTrims(t, tp.Body)
+			}
+			return pc
+		})
 		ident.Rapid(c, c.Share(c.Pick(5000, 200000)), func(t *rapidT) *identCase {
 			g := &gen.G{T: t, C: gen.Cfg{HostileText: true}}
 			var b strings.Builder
